@@ -856,7 +856,8 @@ func main() {
 		x.sampled(p, budget)
 	}
 	pool := poolPhase(e, 3)
-	e.Finish("every schedule of every listed program with <= 2 goroutines on the real Decode/DecodeExclusive/StoreOrLoadPair (stateless DFS over the verif scheduling points); programs with 3 goroutines: a fixed budget of random schedules (sampling, not exhaustive); oracle: pointer identity per (object,type), one exclusive decoder run, no deadlock/panic/unlocked critical section, later sequential Decode returns the same pointer, every successful call returns a value made by a decode function of its own type for its own object; every schedule replayed in the extracted Coq model. Pool oracle (deterministic): see coverage.pool",
+	errs := errPhase(e)
+	e.Finish("every schedule of every listed program with <= 2 goroutines on the real Decode/DecodeExclusive/StoreOrLoadPair (stateless DFS over the verif scheduling points); programs with 3 goroutines: a fixed budget of random schedules (sampling, not exhaustive); oracle: pointer identity per (object,type), one exclusive decoder run, no deadlock/panic/unlocked critical section, later sequential Decode returns the same pointer, every successful call returns a value made by a decode function of its own type for its own object; every schedule replayed in the extracted Coq model. Pool oracle and error-value oracle (deterministic): see coverage.pool, coverage.errors",
 		map[string]any{
 			"schedules_explored":              x.nsched,
 			"programs_enumerated_exhaustively": complete,
@@ -866,5 +867,6 @@ func main() {
 			"schedules_per_program":            x.perProg,
 			"oracle_failures_by_signature":     x.failed,
 			"pool":                             pool,
+			"errors":                           errs,
 		})
 }
